@@ -319,11 +319,14 @@ func c04CheckDecode(w *c04W, e *c04Enc) {
 	}
 }
 
-func c04CheckImport(w *c04W, tcs []c04Cont, e *c04Enc) {
+func c04CheckImport(w *c04W, tcs []c04Cont, e *c04Enc, light bool) {
 	for kind := 0; kind < 2; kind++ {
 		for _, mapped := range []bool{false, true} {
 			for _, clear := range []bool{false, true} {
 				for _, rowSize := range []uint64{1, 2} {
+					if light && (mapped || rowSize != 1) {
+						continue
+					}
 					how, got, exp := c04Import1(w, kind, tcs, mapped, e, clear, rowSize)
 					if how == "" {
 						continue
@@ -519,11 +522,15 @@ func TestVerif_C04(t *testing.T) {
 				cs[k].sh = two
 			}
 		}
-		for _, e := range c04Encodings(w, cs, 0, false) {
+		bigEncs := c04Encodings(w, cs, 0, false)
+		vx.ParallelFor(len(bigEncs), func(i int) {
+			w := &c04W{c: c}
+			e := bigEncs[i]
 			c04CheckDecode(w, e)
-			c04CheckImport(w, []c04Cont{{key: 3, sh: two, enc: 0}, {key: 65535, sh: one, enc: 2}}, e)
+			c04CheckImport(w, []c04Cont{{key: 3, sh: two, enc: 0}, {key: 65535, sh: one, enc: 2}}, e, true)
 			c.Distinct("65536-containers|" + e.format + fmt.Sprint(len(e.run) > 0 && e.run[1]))
-		}
+			w.flush()
+		})
 		c.Sample("decode+import: 65,536 containers (keys 0..65535) × pilosa / official / official+runs")
 		for kind := 0; kind < 2; kind++ {
 			for _, seq := range [][]uint64{{7}, {7, 65536 + 7}, {65536 + 7, 7}} {
@@ -564,11 +571,10 @@ func TestVerif_C04(t *testing.T) {
 		nil, // no container at the key
 		{name: "{0,1}", vals: []uint16{0, 1}},
 		{name: "{1,2,3,4,5,6,65535}", vals: []uint16{1, 2, 3, 4, 5, 6, 65535}},
-		c04ByName(fam, "full"),
 		c04ByName(fam, "stride2-N4096"),
 	}
 	if thorough {
-		ishapes = append(ishapes, c04ByName(fam, "full-minus-0"), c04ByName(fam, "stride15-N4096"))
+		ishapes = append(ishapes, c04ByName(fam, "full"), c04ByName(fam, "full-minus-0"), c04ByName(fam, "stride15-N4096"))
 	}
 	ikeys := []uint64{0, 1, 2}
 	nb := 1
@@ -596,7 +602,7 @@ func TestVerif_C04(t *testing.T) {
 			}
 			tcs := mkBitmap(tx, 1)
 			for _, e := range encs {
-				c04CheckImport(w, tcs, e)
+				c04CheckImport(w, tcs, e, false)
 			}
 			if len(pcs) > 0 && len(tcs) > 0 {
 				c.Distinct(fmt.Sprintf("3|%d|%d", px, tx))
